@@ -568,6 +568,60 @@ func (m *Machine) intercept(fn *ssa.Function) (func([]Value) Value, bool) {
 			}
 			return v
 		}, true
+	case "errors.As":
+		// model: walk the Unwrap chain; a link matches when its dynamic type is identical to the target's element type
+		return func(args []Value) Value {
+			err := args[0].(Iface)
+			tgt := args[1].(Iface)
+			pt, ok := tgt.T.(*types.Pointer)
+			if !ok {
+				panic(unsupported("errors.As with a non-pointer target"))
+			}
+			for depth := 0; err.T != nil && depth < 8; depth++ {
+				if types.Identical(err.T, pt.Elem()) {
+					m.store(tgt.V.(Ptr), err.V)
+					return m.truth(true)
+				}
+				if it, isI := pt.Elem().Underlying().(*types.Interface); isI && types.Implements(err.T, it) {
+					m.store(tgt.V.(Ptr), err)
+					return m.truth(true)
+				}
+				ms := m.Prog.MethodSets.MethodSet(err.T)
+				sel := ms.Lookup(nil, "Unwrap")
+				if sel == nil {
+					break
+				}
+				next := m.call(m.Prog.MethodValue(sel), []Value{err.V}, nil)
+				ni, isI := next.(Iface)
+				if !isI {
+					break
+				}
+				err = ni
+			}
+			return m.truth(false)
+		}, true
+	case "errors.Is":
+		return func(args []Value) Value {
+			err := args[0].(Iface)
+			tgt := args[1].(Iface)
+			for depth := 0; err.T != nil && depth < 8; depth++ {
+				if m.branch(m.ifaceEq(err, tgt)) {
+					return m.truth(true)
+				}
+				ms := m.Prog.MethodSets.MethodSet(err.T)
+				sel := ms.Lookup(nil, "Unwrap")
+				if sel == nil {
+					break
+				}
+				next := m.call(m.Prog.MethodValue(sel), []Value{err.V}, nil)
+				ni, isI := next.(Iface)
+				if !isI {
+					break
+				}
+				err = ni
+			}
+			return m.truth(false)
+		}, true
 	case "fmt.Sprintf", "fmt.Sprint":
 		return func(args []Value) Value { return Str{m.litRope([]byte("<fmt>"))} }, true
 	case "sync/atomic.LoadUint32", "sync/atomic.LoadInt32", "sync/atomic.LoadInt64", "sync/atomic.LoadUint64":
